@@ -7,10 +7,11 @@
 
    Implementation state is two records so that code paths compose as functions  s = [o |-> .., h |-> ..]  ->  s:
      o   observable, logged by the harness after every step
-         doc   [cas, body, del]   cas = number of mutations of the document so far (0 = never written), body = body id
-                                  (external write n -> n, gateway write k -> 100 + k, 0 = none), del = tombstone / absent
+         doc   [cas, body, del, ux] cas = number of mutations of the document so far (0 = never written), body = body id
+                                  (external write n -> n, gateway write k -> 100 + k, 0 = none), del = tombstone / absent,
+                                  ux = version of the user xattr (0 = none)
          meta  sync metadata (xattrs _sync, _vv, _mou) or NoMeta:  syncCas (_sync.cas), crc (body id whose checksum is stored,
-               0 = the checksum of a delete), revs (sequence of [p, body, del]; a revision's id is its position), cur,
+               0 = the checksum of a delete), ucrc (user-xattr version whose checksum is stored), revs (sequence of [p, body, del]; a revision's id is its position), cur,
                seq (how many sequences the document has carried), cv (version id: an import mints the cas of the mutation it
                imports, a gateway write mints 1000 + n), mouCas / mouPcas (_mou.cas / _mou.pCas, 0 = no _mou)
          pcF / pcG / pcW   control state of the feed import / gateway read / gateway write in flight ("idle", "imp" = parked
@@ -20,17 +21,18 @@
      h   hidden: evs (every mutation of the document as the feeds captured it: snapshot [doc, meta]), locals of the three
          operations in flight (the snapshot an import was computed from, ...), nv (versions minted by gateway writes)
    Actions (each takes the scheduler's choice only; one goroutine runs at a time in the harness):
-     ExtSet, ExtDelete                    another application writes / deletes the document directly in the bucket
+     ExtSet, ExtDelete, ExtUx             another application writes / deletes the document / sets its user xattr directly in the bucket
      SGMeta                               metadata-only rewrite by the gateway: ResyncDocument(regenerateSequences)
      Feed(i) = FeedBegin(i) ; FeedRel     importListener.ProcessFeedEvent on captured event i (late, twice, out of order)
      Cache(i)                             changeCache.DocChanged on captured event i (xattr-only content)
      Get = GetBegin ; GetRel*             gateway read (GetRev): on-demand import, retried with the current body on CAS mismatch
      Write(k) = WriteBegin(k) ; WriteRel* gateway write Put(_rev = current revision): on-demand import before the write
-   Bounds on interleavings (NOTES.md): while a read or write is in flight no ExtDelete and no ExtSet over a tombstone. *)
+   Bounds on interleavings (NOTES.md): while a read or write is in flight no ExtDelete, no ExtUx and no ExtSet over a tombstone. *)
 EXTENDS Integers, Sequences, FiniteSets, TLC
 
 CONSTANTS MaxExt,       \* external writes (sets + deletes)
           MaxSG,        \* gateway writes
+          MaxUx,        \* external writes of the user xattr
           MaxMeta,      \* metadata-only rewrites
           MaxFeed,      \* deliveries to the import listener
           MaxCache,     \* deliveries to the change cache
@@ -40,7 +42,7 @@ CONSTANTS MaxExt,       \* external writes (sets + deletes)
           MaxSteps
 
 VARIABLES o, h,                         \* implementation state (see above)
-          last, nExt, nSG, nMeta,       \* ghosts from the logged inputs: the last acknowledged writer [who, body, del]; counters
+          last, lastUx, nExt, nUx, nSG, nMeta, \* ghosts from the logged inputs: the last acknowledged writer [who, body, del], the user xattr; counters
           evOwn,                        \* ghost: for every captured mutation, was it the gateway's own and was the document settled right after it
           fed, inF, inW, dirtyG, dirtyW, \* ghost: events the import listener has completely processed; the event / write in flight; an external write
                                         \*   overlapped the read / write in flight
@@ -48,13 +50,13 @@ VARIABLES o, h,                         \* implementation state (see above)
           nFeed, nCache, nGet,          \* delivery counters (bounds)
           hist                          \* behaviour so far (exported for replay; hidden by VIEW)
 
-ghost == <<last, nExt, nSG, nMeta, evOwn, fed, inF, inW, dirtyG, dirtyW, pre>>
+ghost == <<last, lastUx, nExt, nUx, nSG, nMeta, evOwn, fed, inF, inW, dirtyG, dirtyW, pre>>
 cnt   == <<nFeed, nCache, nGet>>
 vars  == <<o, h, ghost, cnt, hist>>
 view  == <<o, h, ghost, cnt>>
 
-NoMeta == [has |-> FALSE, syncCas |-> 0, crc |-> 0, revs |-> <<>>, cur |-> 0, seq |-> 0, cv |-> 0, mouCas |-> 0, mouPcas |-> 0]
-NoDoc  == [cas |-> 0, body |-> 0, del |-> TRUE]
+NoMeta == [has |-> FALSE, syncCas |-> 0, crc |-> 0, ucrc |-> 0, revs |-> <<>>, cur |-> 0, seq |-> 0, cv |-> 0, mouCas |-> 0, mouPcas |-> 0]
+NoDoc  == [cas |-> 0, body |-> 0, del |-> TRUE, ux |-> 0]
 NoOut  == [acc |-> -1, vst |-> "na", vrev |-> 0, vbody |-> 0, wres |-> "na"]
 NoSnap == [doc |-> NoDoc, meta |-> NoMeta]
 NoW    == [k |-> 0, parg |-> 0, snap |-> NoSnap, osnap |-> NoSnap, casRead |-> -1]
@@ -63,9 +65,9 @@ SGBody(k) == 100 + k
 Init ==
   /\ o = [doc |-> NoDoc, meta |-> NoMeta, pcF |-> "idle", pcG |-> "idle", pcW |-> "idle", out |-> NoOut]
   /\ h = [evs |-> <<>>, fl |-> NoSnap, gl |-> NoSnap, wl |-> NoW, nv |-> 0, sq |-> 0]
-  /\ last = [who |-> "none", body |-> 0, del |-> TRUE] /\ nExt = 0 /\ nSG = 0 /\ nMeta = 0
+  /\ last = [who |-> "none", body |-> 0, del |-> TRUE] /\ lastUx = 0 /\ nExt = 0 /\ nUx = 0 /\ nSG = 0 /\ nMeta = 0
   /\ evOwn = <<>> /\ fed = {} /\ inF = 0 /\ inW = 0 /\ dirtyG = FALSE /\ dirtyW = FALSE
-  /\ pre = [act |-> "Init", i |-> 0, settled |-> TRUE, revs |-> <<>>, seq |-> 0, cas |-> 0, cv |-> 0, has |-> FALSE, cur |-> 0, mouCas |-> 0]
+  /\ pre = [act |-> "Init", i |-> 0, settled |-> TRUE, revs |-> <<>>, seq |-> 0, cas |-> 0, cv |-> 0, has |-> FALSE, cur |-> 0, mouCas |-> 0, ucrc |-> 0]
   /\ nFeed = 0 /\ nCache = 0 /\ nGet = 0
   /\ hist = <<>>
 
@@ -74,14 +76,16 @@ St == [o |-> o, h |-> h]
 -----------------------------------------------------------------------------
 (* ---- own-write detection ---- *)
 BodyCrc(d) == IF d.del THEN 0 ELSE d.body
-(* SyncData.IsSGWrite (feed, raw body) and Document.IsSGWrite (on demand): CAS match, else body checksum match
-   (user xattr unchanged and _vv.cv = _sync.rev cv always hold here: nobody but the gateway writes xattrs) *)
-IsSG(d, m) == m.has /\ (d.cas = m.syncCas \/ BodyCrc(d) = m.crc)
+(* SyncData.IsSGWrite (feed, raw body) and Document.IsSGWrite (on demand): CAS match, else body checksum and user-xattr
+   checksum match (_vv.cv = _sync.rev cv always holds here: nobody but the gateway writes the system xattrs) *)
+IsSG(d, m) == m.has /\ (d.cas = m.syncCas \/ (BodyCrc(d) = m.crc /\ d.ux = m.ucrc))
 (* SyncData.IsSGWriteXattrOnly + the body fetch of DocChanged: event snapshot e, the document now d *)
 CacheAccepts(e, d) ==
   IF ~e.meta.has THEN FALSE
   ELSE IF e.doc.cas = e.meta.syncCas THEN TRUE
-  ELSE IF e.doc.del THEN e.meta.crc = 0
+  ELSE IF e.doc.del /\ e.meta.crc # 0 THEN FALSE
+  ELSE IF e.doc.ux # e.meta.ucrc THEN FALSE
+  ELSE IF e.doc.del THEN TRUE
   ELSE d.cas = e.doc.cas /\ BodyCrc(d) = e.meta.crc          \* ambiguous: fetch the body; a stale event is dropped
 
 (* ---- one mutation of the bucket document: the feeds capture a snapshot ---- *)
@@ -94,8 +98,9 @@ ImportMeta(sn, newcas, seq) ==
   LET d == sn.doc  m == sn.meta
       mouMatch == m.has /\ m.mouCas # 0 /\ m.mouCas = d.cas
       rv == [p |-> m.cur, body |-> d.body, del |-> d.del]
-  IN [has |-> TRUE, syncCas |-> newcas, crc |-> BodyCrc(d),
-      revs |-> Append(m.revs, rv), cur |-> Len(m.revs) + 1, seq |-> seq,
+      newRev == (~m.has) \/ BodyCrc(d) # m.crc \/ d.ux = 0      \* a change of the user xattr alone creates no revision
+  IN [has |-> TRUE, syncCas |-> newcas, crc |-> BodyCrc(d), ucrc |-> d.ux,
+      revs |-> IF newRev THEN Append(m.revs, rv) ELSE m.revs, cur |-> IF newRev THEN Len(m.revs) + 1 ELSE m.cur, seq |-> seq,
       cv |-> IF (~m.has) \/ ~mouMatch THEN d.cas ELSE m.cv,          \* updateHLV Import: no new version when _mou.cas = cas
       mouCas |-> newcas, mouPcas |-> IF mouMatch THEN m.mouPcas ELSE d.cas]
 CommitImport(s, sn) ==
@@ -149,7 +154,7 @@ WriteBeginF(s, k) ==
   WAttemptF([s EXCEPT !.h.wl = [NoW EXCEPT !.k = k, !.parg = IF s.o.meta.has THEN s.o.meta.cur ELSE 0]])
 PutMeta(sn, k, newcas, seq, ver) ==
   LET m == sn.meta  rv == [p |-> m.cur, body |-> SGBody(k), del |-> FALSE] IN
-  [has |-> TRUE, syncCas |-> newcas, crc |-> SGBody(k), revs |-> Append(m.revs, rv), cur |-> Len(m.revs) + 1, seq |-> seq,
+  [has |-> TRUE, syncCas |-> newcas, crc |-> SGBody(k), ucrc |-> sn.doc.ux, revs |-> Append(m.revs, rv), cur |-> Len(m.revs) + 1, seq |-> seq,
    cv |-> ver, mouCas |-> 0, mouPcas |-> 0]
 WriteRelF(s) ==
   LET d == s.o.doc  m == s.o.meta  w == s.h.wl IN
@@ -159,7 +164,7 @@ WriteRelF(s) ==
        ELSE [ClrOut(s) EXCEPT !.h.wl.snap = [doc |-> d, meta |-> m]]                       \* on-demand import retried with the current body
   ELSE IF d.cas = w.casRead
        THEN LET nc == d.cas + 1 IN
-            DoneW(Mut([s EXCEPT !.h.sq = @ + 1, !.h.nv = @ + 1], [cas |-> nc, body |-> SGBody(w.k), del |-> FALSE],
+            DoneW(Mut([s EXCEPT !.h.sq = @ + 1, !.h.nv = @ + 1], [cas |-> nc, body |-> SGBody(w.k), del |-> FALSE, ux |-> d.ux],
                       PutMeta(w.osnap, w.k, nc, s.h.sq + 1, 1000 + s.h.nv + 1)), "ok")
        ELSE WAttemptF(s)                                                                    \* CAS mismatch: the loop re-reads and re-runs the callback
 RECURSIVE RunW(_, _)
@@ -169,57 +174,65 @@ WriteF(s, k) == RunW(WriteBeginF(s, k), 4)
 (* ---- the environment and the metadata-only rewrite ---- *)
 ExtSetF(s, b) ==
   LET d == s.o.doc IN
-  Mut(ClrOut(s), [cas |-> d.cas + 1, body |-> b, del |-> FALSE], IF d.del THEN NoMeta ELSE s.o.meta)   \* a set over a tombstone drops the xattrs
-ExtDeleteF(s) == Mut(ClrOut(s), [cas |-> s.o.doc.cas + 1, body |-> 0, del |-> TRUE], s.o.meta)        \* system xattrs survive
+  Mut(ClrOut(s), [cas |-> d.cas + 1, body |-> b, del |-> FALSE, ux |-> IF d.del THEN 0 ELSE d.ux],
+      IF d.del THEN NoMeta ELSE s.o.meta)                                                            \* a set over a tombstone drops the xattrs
+ExtDeleteF(s) == Mut(ClrOut(s), [cas |-> s.o.doc.cas + 1, body |-> 0, del |-> TRUE, ux |-> 0], s.o.meta)   \* system xattrs survive, user xattrs do not
+ExtUxF(s, n) == Mut(ClrOut(s), [s.o.doc EXCEPT !.cas = @ + 1, !.ux = n], s.o.meta)
 SGMetaF(s) ==
   LET d == s.o.doc  m == s.o.meta  nc == d.cas + 1 IN
   Mut([ClrOut(s) EXCEPT !.h.sq = @ + 1], [d EXCEPT !.cas = nc],
-      [m EXCEPT !.seq = s.h.sq + 1, !.mouCas = nc, !.mouPcas = IF m.mouCas # 0 /\ m.mouCas = d.cas THEN m.mouPcas ELSE d.cas])
-      \* ResyncDocument: _sync rewritten without expanding _sync.cas / value_crc32c; _mou.cas expanded
+      [m EXCEPT !.seq = s.h.sq + 1, !.ucrc = d.ux, !.mouCas = nc, !.mouPcas = IF m.mouCas # 0 /\ m.mouCas = d.cas THEN m.mouPcas ELSE d.cas])
+      \* ResyncDocument: _sync rewritten without expanding _sync.cas / value_crc32c (the user-xattr checksum is refreshed:
+      \* the sync function has just been re-run with the current user xattr); _mou.cas expanded
 CacheF(s, i) == SetOut(s, "acc", IF CacheAccepts(s.h.evs[i], s.o.doc) THEN 1 ELSE 0)
 
 -----------------------------------------------------------------------------
 (* ---- ghosts (from logged inputs and the (primed) observable state only) ---- *)
 CurRev(m) == m.revs[m.cur]
-SettledIn(ob, l) ==
+SettledIn(ob, l, u) ==
   IF ~ob.meta.has THEN l.who = "none" \/ l.del
-  ELSE ob.meta.cur \in 1..Len(ob.meta.revs) /\ CurRev(ob.meta).body = l.body /\ CurRev(ob.meta).del = l.del
-Settled == SettledIn(o, last)
+  ELSE ob.meta.cur \in 1..Len(ob.meta.revs) /\ CurRev(ob.meta).body = l.body /\ CurRev(ob.meta).del = l.del /\ ob.meta.ucrc = u
+Settled == SettledIn(o, last, lastUx)
 AllIdle(ob) == ob.pcF = "idle" /\ ob.pcG = "idle" /\ ob.pcW = "idle"
 PreOf(a, i) == [act |-> a, i |-> i, settled |-> Settled, revs |-> o.meta.revs, seq |-> o.meta.seq, cas |-> o.doc.cas, cv |-> o.meta.cv,
-                has |-> o.meta.has, cur |-> o.meta.cur, mouCas |-> o.meta.mouCas]
+                has |-> o.meta.has, cur |-> o.meta.cur, mouCas |-> o.meta.mouCas, ucrc |-> o.meta.ucrc]
 (* captured mutations of this step: only the last one is attributed (intermediate states of a step are not observed) *)
-OwnAfter(gw, l2) ==
+OwnAfter(gw, l2, u2) ==
   LET n == o'.doc.cas - o.doc.cas IN
-  evOwn' = evOwn \o [j \in 1..n |-> IF j = n THEN (gw /\ SettledIn(o', l2)) ELSE FALSE]
-GhostCommon(a, i, gw, l2) ==
-  /\ pre' = PreOf(a, i) /\ last' = l2 /\ OwnAfter(gw, l2)
+  evOwn' = evOwn \o [j \in 1..n |-> IF j = n THEN (gw /\ SettledIn(o', l2, u2)) ELSE FALSE]
+GhostCommon(a, i, gw, l2, u2) ==
+  /\ pre' = PreOf(a, i) /\ last' = l2 /\ lastUx' = u2 /\ OwnAfter(gw, l2, u2)
+(* an external set / delete (l2 = the write; the store drops the user xattr with a delete and with a set over a tombstone) *)
 GhostExt(l2) ==
-  /\ GhostCommon("Ext", 0, FALSE, l2) /\ nExt' = nExt + 1
+  /\ GhostCommon("Ext", 0, FALSE, l2, IF l2.del \/ o.doc.del THEN 0 ELSE lastUx) /\ nExt' = nExt + 1
   /\ dirtyG' = (dirtyG \/ o.pcG # "idle") /\ dirtyW' = (dirtyW \/ o.pcW # "idle")
-  /\ UNCHANGED <<nSG, nMeta, fed, inF, inW>>
-GhostSGMeta == GhostCommon("SGMeta", 0, TRUE, last) /\ nMeta' = nMeta + 1 /\ UNCHANGED <<nExt, nSG, fed, inF, inW, dirtyG, dirtyW>>
+  /\ UNCHANGED <<nUx, nSG, nMeta, fed, inF, inW>>
+GhostExtUx(n) ==
+  /\ GhostCommon("Ext", 0, FALSE, last, n) /\ nUx' = nUx + 1
+  /\ dirtyG' = (dirtyG \/ o.pcG # "idle") /\ dirtyW' = (dirtyW \/ o.pcW # "idle")
+  /\ UNCHANGED <<nExt, nSG, nMeta, fed, inF, inW>>
+GhostSGMeta == GhostCommon("SGMeta", 0, TRUE, last, lastUx) /\ nMeta' = nMeta + 1 /\ UNCHANGED <<nExt, nUx, nSG, fed, inF, inW, dirtyG, dirtyW>>
 (* a = "Feed" | "FeedBegin" with the delivered event i, or "FeedRel" (the event in flight) *)
 GhostFeed(a, i) ==
   LET ev == IF a = "FeedRel" THEN inF ELSE i IN
-  /\ GhostCommon(a, ev, TRUE, last)
+  /\ GhostCommon(a, ev, TRUE, last, lastUx)
   /\ fed' = (IF o'.pcF = "idle" THEN fed \cup {ev} ELSE fed)
   /\ inF' = (IF o'.pcF = "idle" THEN 0 ELSE ev)
-  /\ UNCHANGED <<nExt, nSG, nMeta, inW, dirtyG, dirtyW>>
-GhostCache(i) == GhostCommon("Cache", i, TRUE, last) /\ UNCHANGED <<nExt, nSG, nMeta, fed, inF, inW, dirtyG, dirtyW>>
+  /\ UNCHANGED <<nExt, nUx, nSG, nMeta, inW, dirtyG, dirtyW>>
+GhostCache(i) == GhostCommon("Cache", i, TRUE, last, lastUx) /\ UNCHANGED <<nExt, nUx, nSG, nMeta, fed, inF, inW, dirtyG, dirtyW>>
 GhostGet(a) ==
-  /\ GhostCommon(a, 0, TRUE, last)
+  /\ GhostCommon(a, 0, TRUE, last, lastUx)
   /\ dirtyG' = (IF a = "GetBegin" \/ a = "Get" THEN FALSE ELSE dirtyG)
-  /\ UNCHANGED <<nExt, nSG, nMeta, fed, inF, inW, dirtyW>>
+  /\ UNCHANGED <<nExt, nUx, nSG, nMeta, fed, inF, inW, dirtyW>>
 (* a = "Write" | "WriteBegin" (a new request) or "WriteRel" (the request in flight) *)
 GhostWrite(a) ==
   LET new == a = "WriteBegin" \/ a = "Write"
       k == IF new THEN nSG + 1 ELSE inW IN
-  /\ GhostCommon(a, k, TRUE, IF o'.out.wres = "ok" THEN [who |-> "sg", body |-> SGBody(k), del |-> FALSE] ELSE last)
+  /\ GhostCommon(a, k, TRUE, IF o'.out.wres = "ok" THEN [who |-> "sg", body |-> SGBody(k), del |-> FALSE] ELSE last, lastUx)
   /\ nSG' = (IF new THEN nSG + 1 ELSE nSG)
   /\ inW' = (IF o'.pcW = "idle" THEN 0 ELSE k)
   /\ dirtyW' = (IF new THEN FALSE ELSE dirtyW)
-  /\ UNCHANGED <<nExt, nMeta, fed, inF, dirtyG>>
+  /\ UNCHANGED <<nExt, nUx, nMeta, fed, inF, dirtyG>>
 
 -----------------------------------------------------------------------------
 Apply(t) == o' = t.o /\ h' = t.h
@@ -229,6 +242,7 @@ ReadWriteIdle == o.pcG = "idle" /\ o.pcW = "idle"
 
 ImplExtSet(b)  == Apply(ExtSetF(St, b))
 ImplExtDelete  == Apply(ExtDeleteF(St))
+ImplExtUx(n)   == Apply(ExtUxF(St, n))
 ImplSGMeta     == Apply(SGMetaF(St))
 ImplFeed(i)    == Apply(FeedF(St, i))
 ImplFeedBegin(i) == Apply(FeedBeginF(St, i))
@@ -243,6 +257,7 @@ ImplWriteRel   == Apply(WriteRelF(St))
 
 OKExtSet    == nExt < MaxExt /\ (o.doc.del => ReadWriteIdle)
 OKExtDelete == Deletes /\ nExt < MaxExt /\ ~o.doc.del /\ ReadWriteIdle
+OKExtUx     == nUx < MaxUx /\ ~o.doc.del /\ ReadWriteIdle
 OKSGMeta    == nMeta < MaxMeta /\ o.meta.has /\ ~o.doc.del
 OKFeed(i)   == nFeed < MaxFeed /\ o.pcF = "idle" /\ i \in 1..Len(h.evs)
 OKCache(i)  == nCache < MaxCache /\ i \in 1..Len(h.evs)
@@ -251,6 +266,7 @@ OKWrite     == nSG < MaxSG /\ o.pcW = "idle" /\ ~o.doc.del
 
 ExtSet      == Room /\ OKExtSet /\ ImplExtSet(nExt + 1) /\ GhostExt([who |-> "ext", body |-> nExt + 1, del |-> FALSE]) /\ UNCHANGED cnt /\ Step("ExtSet", nExt + 1)
 ExtDelete   == Room /\ OKExtDelete /\ ImplExtDelete /\ GhostExt([who |-> "ext", body |-> 0, del |-> TRUE]) /\ UNCHANGED cnt /\ Step("ExtDelete", 0)
+ExtUx       == Room /\ OKExtUx /\ ImplExtUx(nUx + 1) /\ GhostExtUx(nUx + 1) /\ UNCHANGED cnt /\ Step("ExtUx", nUx + 1)
 SGMeta      == Room /\ OKSGMeta /\ ImplSGMeta /\ GhostSGMeta /\ UNCHANGED cnt /\ Step("SGMeta", 0)
 Feed(i)     == Room /\ OKFeed(i) /\ ImplFeed(i) /\ GhostFeed("Feed", i) /\ nFeed' = nFeed + 1 /\ UNCHANGED <<nCache, nGet>> /\ Step("Feed", i)
 FeedBegin(i) == Room /\ Split /\ OKFeed(i) /\ ImplFeedBegin(i) /\ GhostFeed("FeedBegin", i) /\ nFeed' = nFeed + 1 /\ UNCHANGED <<nCache, nGet>> /\ Step("FeedBegin", i)
@@ -264,7 +280,7 @@ WriteBegin  == Room /\ Split /\ OKWrite /\ ImplWriteBegin(nSG + 1) /\ GhostWrite
 WriteRel    == Room /\ o.pcW # "idle" /\ ImplWriteRel /\ GhostWrite("WriteRel") /\ UNCHANGED cnt /\ Step("WriteRel", h.wl.k)
 
 Next ==
-  \/ ExtSet \/ ExtDelete \/ SGMeta \/ Get \/ GetBegin \/ GetRel \/ Write \/ WriteBegin \/ WriteRel \/ FeedRel
+  \/ ExtSet \/ ExtDelete \/ ExtUx \/ SGMeta \/ Get \/ GetBegin \/ GetRel \/ Write \/ WriteBegin \/ WriteRel \/ FeedRel
   \/ \E i \in 1..Len(h.evs) : Feed(i) \/ FeedBegin(i) \/ Cache(i)
 Spec == Init /\ [][Next]_vars
 
@@ -285,7 +301,7 @@ NewRevs == IF pre.has THEN Len(pre.revs) + 1 .. Len(Revs) ELSE 1..Len(Revs)
 SettledStable ==
   (pre.settled /\ pre.act \in ImportActs) =>
      /\ o.doc.cas = pre.cas /\ o.meta.has = pre.has
-     /\ (o.meta.has => Revs = pre.revs /\ o.meta.seq = pre.seq /\ o.meta.cur = pre.cur)
+     /\ (o.meta.has => Revs = pre.revs /\ o.meta.seq = pre.seq /\ o.meta.cur = pre.cur /\ o.meta.ucrc = pre.ucrc)
 (* a gateway write on a settled document adds its own revision and nothing else *)
 OwnWriteOnly ==
   (pre.settled /\ pre.act \in WriteActs /\ ~dirtyW) =>
@@ -297,7 +313,7 @@ ImportedOnce ==
   /\ (pre.act \in ImportActs) =>
         /\ Grown <= 1
         /\ (Grown = 1 => last.who = "ext" /\ CurRev(o.meta).body = last.body /\ CurRev(o.meta).del = last.del)
-        /\ (o.meta.has /\ pre.has /\ o.meta.seq # pre.seq => Grown = 1)
+        /\ (o.meta.has /\ pre.has /\ o.meta.seq # pre.seq => (Grown = 1 \/ (o.meta.ucrc # pre.ucrc /\ o.meta.ucrc = lastUx)))
   /\ (pre.act \in WriteActs /\ ~dirtyW) =>
         /\ Grown <= 2
         /\ \A n \in NewRevs : Revs[n].body = last.body \/ (Revs[n].body < 100 /\ ~(\E x \in NewRevs : x # n /\ Revs[x].body < 100))
